@@ -7,6 +7,7 @@ package main
 
 import (
 	"context"
+	"encoding/json"
 	"fmt"
 	"reflect"
 	"strings"
@@ -305,82 +306,87 @@ func stepComponent(g *G, n int, opts map[string]string) *Out {
 				pending = g.messageFor(as, st.Node)
 			}
 		}
-		spec, err := as.build()
-		if err != nil {
-			o.count("compile-error")
-			continue
-		}
-		var ctl *core.Control
-		if !nilCtl {
-			ctl = &core.Control{Limit: 10}
-		}
-		props := g.genProps()
-		// a deadline only where it concerns exactly one execution: the current node's endless action
-		loop := false
-		if cur := as.Nodes[st.Node]; cur != nil && cur.Action.hasLoop() {
-			loop = true
-		}
-		r1 := runStep(spec, st.core(), deepCopy(pending, nil), ctl, props, loop)
-		r2 := runStep(spec, st.core(), deepCopy(pending, g), ctl, props, loop)
-		gor, ok := r1.coq()
-		if !ok {
-			gor = "GStepUnrep"
-		}
-		pend := "None"
-		if pending != nil {
-			pend = "(Some " + mustCoqJSON(pending) + ")"
-		}
-		term := fmt.Sprintf("(mk_scase %s %s %s %s %s %s %s)", as.coq(), st.coq(), pend, gor,
-			coqBool(r1.Intact && r2.Intact), coqBool(r1.Shared || r2.Shared), coqBool(r1.key() == r2.key()))
-		o.count("outcome:" + r1.Outcome)
-		o.count("err:" + r1.Err)
-		nd := as.Nodes[st.Node]
-		if nd != nil && nd.Action != nil {
-			o.count("action:" + nd.Action.P.Term)
-		}
-		moved := r1.Stride != nil && r1.Stride.To != nil
-		if moved {
-			o.count("moved")
-		}
-		sample := &stepCase{Spec: as, State: st, Pending: pending, NilCtl: nilCtl,
-			Go: map[string]interface{}{"outcome": r1.Outcome, "err": r1.Err, "stride": r1.Stride,
-				"intact": r1.Intact && r2.Intact, "shared": r1.Shared || r2.Shared, "repeat_equal": r1.key() == r2.key()}}
-		nontrivial := moved || r1.Err != "GNone"
-		hasPerm := false
-		for k := range st.Bs {
-			if strings.HasSuffix(k, "!") {
-				hasPerm = true
-			}
-		}
-		failed := nd != nil && nd.Action != nil && (nd.Action.P.Term == "throw" || nd.Action.P.Term == "nonobject" ||
-			nd.Action.P.Term == "emitbad" || nd.Action.P.Term == "retbad" || nd.Action.P.Term == "loop")
-		emits := false
-		if nd != nil && nd.Action != nil {
-			for _, op := range nd.Action.P.Ops {
-				if op.Kind == "emit" || op.Kind == "emitb" {
-					emits = true
-				}
-			}
-		}
-		switch opts["mode"] {
-		case "c18":
-			nontrivial = hasPerm && moved && nd != nil && (nd.Action != nil || anyGuard(nd))
-		case "c08":
-			nontrivial = emits
-		case "c07":
-			nontrivial = failed || r1.Err != "GNone" || st.Bs == nil
-		case "c06":
-			nontrivial = failed || r1.Err != "GNone" || (moved && nd != nil && nd.Action != nil)
-		}
-		if failed && emits {
-			o.count("emit-then-fail")
-		}
-		if hasPerm {
-			o.count("has-permanent")
-		}
-		o.add(term, canon(as)+canon(st)+canon(pending), nontrivial, sample)
+		addStepCase(o, g, as, st, pending, nilCtl, opts["mode"])
 	}
 	return o
+}
+
+// addStepCase runs one (spec, state, pending) through Spec.Step twice and records the case.
+func addStepCase(o *Out, g *G, as *ASpec, st *AState, pending interface{}, nilCtl bool, mode string) {
+	spec, err := as.build()
+	if err != nil {
+		o.count("compile-error")
+		return
+	}
+	var ctl *core.Control
+	if !nilCtl {
+		ctl = &core.Control{Limit: 10}
+	}
+	props := g.genProps()
+	// a deadline only where it concerns exactly one execution: the current node's endless action
+	loop := false
+	if cur := as.Nodes[st.Node]; cur != nil && cur.Action.hasLoop() {
+		loop = true
+	}
+	r1 := runStep(spec, st.core(), deepCopy(pending, nil), ctl, props, loop)
+	r2 := runStep(spec, st.core(), deepCopy(pending, g), ctl, props, loop)
+	gor, ok := r1.coq()
+	if !ok {
+		gor = "GStepUnrep"
+	}
+	pend := "None"
+	if pending != nil {
+		pend = "(Some " + mustCoqJSON(pending) + ")"
+	}
+	term := fmt.Sprintf("(mk_scase %s %s %s %s %s %s %s)", as.coq(), st.coq(), pend, gor,
+		coqBool(r1.Intact && r2.Intact), coqBool(r1.Shared || r2.Shared), coqBool(r1.key() == r2.key()))
+	o.count("outcome:" + r1.Outcome)
+	o.count("err:" + r1.Err)
+	nd := as.Nodes[st.Node]
+	if nd != nil && nd.Action != nil {
+		o.count("action:" + nd.Action.P.Term)
+	}
+	moved := r1.Stride != nil && r1.Stride.To != nil
+	if moved {
+		o.count("moved")
+	}
+	sample := &stepCase{Spec: as, State: st, Pending: pending, NilCtl: nilCtl,
+		Go: map[string]interface{}{"outcome": r1.Outcome, "err": r1.Err, "stride": r1.Stride,
+			"intact": r1.Intact && r2.Intact, "shared": r1.Shared || r2.Shared, "repeat_equal": r1.key() == r2.key()}}
+	nontrivial := moved || r1.Err != "GNone"
+	hasPerm := false
+	for k := range st.Bs {
+		if strings.HasSuffix(k, "!") {
+			hasPerm = true
+		}
+	}
+	failed := nd != nil && nd.Action != nil && (nd.Action.P.Term == "throw" || nd.Action.P.Term == "nonobject" ||
+		nd.Action.P.Term == "emitbad" || nd.Action.P.Term == "retbad" || nd.Action.P.Term == "loop")
+	emits := false
+	if nd != nil && nd.Action != nil {
+		for _, op := range nd.Action.P.Ops {
+			if op.Kind == "emit" || op.Kind == "emitb" {
+				emits = true
+			}
+		}
+	}
+	switch mode {
+	case "c18":
+		nontrivial = hasPerm && moved && nd != nil && (nd.Action != nil || anyGuard(nd))
+	case "c08":
+		nontrivial = emits
+	case "c07":
+		nontrivial = failed || r1.Err != "GNone" || st.Bs == nil
+	case "c06":
+		nontrivial = failed || r1.Err != "GNone" || (moved && nd != nil && nd.Action != nil)
+	}
+	if failed && emits {
+		o.count("emit-then-fail")
+	}
+	if hasPerm {
+		o.count("has-permanent")
+	}
+	o.add(term, canon(as)+canon(st)+canon(pending), nontrivial, sample)
 }
 
 // ---- walk ------------------------------------------------------------------
@@ -746,4 +752,94 @@ func nodesAsMap(as *ASpec) map[string]interface{} {
 		m[k] = nil
 	}
 	return m
+}
+
+// ---- exhaustive small scope of one step (C04) ----------------------------------------------
+
+func init() { components["stepenum"] = stepEnumComponent }
+
+// stepEnumComponent enumerates every configuration of the *current node* - action, branching type, up to two
+// branches (pattern, guard, target) - over a small vocabulary, crossed with the error settings, three states and
+// three pending messages.  One step depends on nothing else of a specification (other nodes only serve as
+// targets), so this is the exhaustive family of one-step behaviours over that vocabulary.
+func stepEnumComponent(g *G, n int, opts map[string]string) *Out {
+	g.mode = opts["mode"]
+	o := newOut("Corr.StepCorr", "scase")
+	js := func(s string) interface{} {
+		var x interface{}
+		must(json.Unmarshal([]byte(s), &x))
+		return x
+	}
+	patterns := []interface{}{nil, js(`{"n":"?v"}`), js(`{"a":1}`)}
+	guards := []*Act{nil,
+		{P: &Prog{Term: "bindings"}},
+		{P: &Prog{Term: "null"}},
+		{P: &Prog{Term: "ifeq", K: "?v", J: 1.0}}}
+	actions := []*Act{nil,
+		{P: &Prog{Ops: []Op{{Kind: "set", K: "n", J: 1.0}, {Kind: "emit", J: js(`{"e":1,"to":"nobody"}`)}}, Term: "bindings"}},
+		{P: &Prog{Ops: []Op{{Kind: "emit", J: js(`{"e":2,"to":"nobody"}`)}}, Term: "throw"}},
+		{P: &Prog{Term: "null"}}}
+	targets := []string{"a", "@t"}
+	var branches []*ABranch
+	for _, p := range patterns {
+		for _, gd := range guards {
+			for _, t := range targets {
+				branches = append(branches, &ABranch{Pattern: p, HasPattern: p != nil, Guard: gd, Target: t})
+			}
+		}
+	}
+	var lists [][]*ABranch
+	lists = append(lists, nil)
+	for _, b1 := range branches {
+		lists = append(lists, []*ABranch{b1})
+	}
+	for _, b1 := range branches {
+		for _, b2 := range branches {
+			lists = append(lists, []*ABranch{b1, b2})
+		}
+	}
+	type errs struct {
+		br   bool
+		node string
+	}
+	errSettings := []errs{{false, ""}, {true, ""}, {false, "a"}}
+	states := []map[string]interface{}{{}, {"n": 1.0, "t": "b"}, nil}
+	pendings := []interface{}{nil, js(`{"n":1}`), js(`{"a":1,"n":2}`)}
+	total := len(actions) * 2 * len(lists) * len(errSettings) * len(states) * len(pendings)
+	stride := 1
+	if n > 0 && total > n {
+		stride = (total + n - 1) / n
+	}
+	o.Notes = append(o.Notes, fmt.Sprintf("small scope of one step: %d actions x 2 branching types x %d branch lists (<= 2 of %d branches) x %d error settings x %d states x %d pending = %d cases; stride %d (1 = exhaustive)",
+		len(actions), len(lists), len(branches), len(errSettings), len(states), len(pendings), total, stride))
+	k := 0
+	for _, act := range actions {
+		for _, typ := range []string{"message", "bindings"} {
+			for _, bl := range lists {
+				for _, es := range errSettings {
+					for _, bs := range states {
+						for _, pend := range pendings {
+							k++
+							if (k-1)%stride != 0 {
+								continue
+							}
+							as := &ASpec{Nodes: map[string]*ANode{
+								"start": {Action: act, HasBranches: true, Type: typ, Branches: bl},
+								"a":     {}, "b": {}},
+								ErrBranches: es.br, ErrNode: es.node}
+							st := &AState{Node: "start"}
+							if bs != nil {
+								st.Bs = deepCopy(bs, nil).(map[string]interface{})
+							}
+							addStepCase(o, g, as, st, deepCopy(pend, nil), false, opts["mode"])
+						}
+					}
+				}
+			}
+		}
+	}
+	if stride == 1 {
+		o.count("exhaustive")
+	}
+	return o
 }
